@@ -606,7 +606,7 @@ class Checker:
             return "line-statement:not-at-the-tag"
         if "%}" in text and "'" not in text and '"' not in text:
             return "line-statement:includes-closing-delimiter"
-        if "\n" in text.rstrip("\r\n").replace("\r\n", "") and "'" not in text and '"' not in text:
+        if "\n" in text and "'" not in text and '"' not in text:
             return "line-statement:spans-lines"
         before = src[:start]
         i = before.rfind("{%")
@@ -666,7 +666,15 @@ class Checker:
                 if tk is None:
                     continue
                 self.count("posmap_checks")
-                if (sp.start, sp.end, name) not in exp_tags[tk]:
+                ok = (sp.start, sp.end, name) in exp_tags[tk]
+                if not ok:
+                    # a line statement's span may run on over the blanks that end its line
+                    src = cs.source_named(sp.template_name) or ""
+                    e2 = sp.end
+                    while e2 > sp.start and src[e2 - 1:e2] in (" ", "\t"):
+                        e2 -= 1
+                    ok = (sp.start, e2, name) in exp_tags[tk] and exp_tags[tk][(sp.start, e2, name)].startswith("liquid-")
+                if not ok:
                     near = [(abs(s - sp.start), lbl) for (s, e, n), lbl in exp_tags[tk].items() if n == name]
                     lbl = min(near)[1] if near else "no-such-tag"
                     out.append((f"span:tag:{lbl}",
@@ -853,3 +861,103 @@ def _short_path(path: list[object]) -> str:
         r = repr(p)
         out.append(r if len(r) <= 30 else r[:27] + "...")
     return "[" + ", ".join(out) + "]"
+
+
+# ------------------------------------------------------------------------ whole case
+
+
+def run_case(chk: Checker, case: dict[str, Any]) -> list[tuple[str, str, dict[str, Any]]] | None:
+    """Execute the oracle on one case.  None = the case is not a valid program of the
+    workload (does not parse / references a template outside the set)."""
+    global ACTIVE  # noqa: PLW0603
+    from liquid2.exceptions import LiquidError
+    from liquid2.exceptions import TemplateNotFoundError
+
+    install()
+    ctx = chk.ctx if chk.record else None
+    try:
+        cs = Case(case)
+        for n in cs.templates:
+            cs.env.get_template(n)
+    except LiquidError:
+        chk.count("cases_rejected:do-not-parse")
+        return None
+    except KeyError:
+        return None
+    out: list[tuple[str, str, dict[str, Any]]] = []
+    inc = not cs.dynamic
+    try:
+        a = cs.t.analyze(include_partials=inc)
+    except TemplateNotFoundError as e:
+        if str(e).split("\n")[0].strip() not in cs.templates:
+            chk.count("cases_rejected:template-outside-the-set")
+            return None
+        return [(f"analyze:raised:{type(e).__name__}", f"analyze() raised {type(e).__name__}: {e}", {})]
+    except LiquidError as e:
+        return [(f"analyze:raised:{type(e).__name__}", f"analyze() raised {type(e).__name__}: {e}", {})]
+    if ctx is not None:
+        ctx.ev()
+    st = Static(a)
+    chk.check_spans(cs, st, out)
+    if case.get("posmap"):
+        chk.check_posmap(cs, st, case["posmap"], out)
+    chk.check_async_and_helpers(cs, a, out)
+    binders = set(case.get("binders") or ())
+    rec = chk.rec
+    for i, data in enumerate(case.get("datasets") or []):
+        mode = "async" if i % 3 == 2 else "sync"
+        rec.reset()
+        cs.t.overlay_data = RecordingMapping(data, rec)
+        ACTIVE = rec
+        status = "ok"
+        try:
+            if mode == "async":
+                drive(cs.t.render_async())
+            else:
+                cs.t.render()
+        except LiquidError as e:
+            status = "liquid-error"
+            chk.seen("render_error_classes", type(e).__name__)
+        except RecursionError:
+            status = "recursion-error"
+        except Exception as e:  # noqa: BLE001 -- C02's subject, not this property's
+            status = "non-liquid-error"
+            chk.seen("render_error_classes", "non-liquid:" + type(e).__name__)
+        finally:
+            ACTIVE = None
+        n = chk.check_runtime(cs, st, binders, out, root_only=cs.dynamic)
+        if ctx is not None:
+            ctx.ev()
+            ctx.count(f"renders:{status}")
+            ctx.count(f"renders:{mode}")
+            facts = n["lookups"] + n["filters"] + n["tags"] + n["globals"] + n["resolves"]
+            ctx.count("runtime_facts_checked", facts)
+            ctx.count("facts:lookups", n["lookups"])
+            ctx.count("facts:filters", n["filters"])
+            ctx.count("facts:tags", n["tags"])
+            ctx.count("facts:global_names", n["globals"])
+            ctx.count("facts:resolve_lookups", n["resolves"])
+            ctx.count("hook:get_calls", rec.n_get)
+            ctx.count("hook:resolve_calls", rec.n_resolve)
+            ctx.count("hook:filter_calls", rec.n_filter)
+            ctx.count("hook:node_renders", rec.n_node)
+            ctx.count("hook:global_layer_hits", rec.n_global)
+            for (_s, _a, _b, name) in rec.tags:
+                ctx.seen("tags_executed", name)
+            for (_s, _a, _b, name) in rec.filters:
+                ctx.seen("filters_applied", name)
+            for node in rec.tags.values():
+                ctx.seen("node_classes", node)
+            if n["lookups"] and n["filters"] and n["tags"]:
+                ctx.nt(sorted(cs.templates.items()), repr(data), mode)
+    # one report per (key, location)
+    seen: set[tuple] = set()
+    uniq = []
+    for key, what, det in out:
+        k = (key, det.get("template_name") or str(det.get("template")), det.get("start"), det.get("name"),
+             det.get("method"))
+        if k in seen:
+            continue
+        seen.add(k)
+        uniq.append((key, what, det))
+    return uniq
